@@ -31,6 +31,7 @@ structure Req where
   kind : Kind
   done : Bool              -- the waiter's future is already done (timed out / cancelled)
   deadline : Nat
+  seqNo : Nat := 0         -- ghost: ordinal among the correlated sends of this connection (0 = SASL token)
 deriving Inhabited
 
 structure St where
@@ -43,6 +44,8 @@ structure St where
   timeoutMs : Nat := 1000
   out : List (Nat × Outcome) := []     -- newest first
   issued : List (Nat × Option Nat × Bool) := []   -- ghost: waiter id ↦ (correlation id, quirk kind), newest first
+  base : Nat := 0          -- ghost: the counter value the connection started with
+  sent : Nat := 0          -- ghost: number of correlated sends so far
 deriving Inhabited
 
 /-- `_next_correlation_id` -/
@@ -72,9 +75,11 @@ def send (s : St) (corr? : Bool) (k : Kind) : St :=
   else
     let c := if corr? then nextCorr s.counter else s.counter
     { s with counter := c, nextId := s.nextId + 1,
+             sent := if corr? then s.sent + 1 else s.sent,
              issued := (s.nextId, (if corr? then some c else none), k.quirk) :: s.issued,
              reqs := s.reqs ++ [{ id := s.nextId, corr := if corr? then some c else none, kind := k,
-                                  done := false, deadline := s.now + s.timeoutMs }] }
+                                  done := false, deadline := s.now + s.timeoutMs,
+                                  seqNo := if corr? then s.sent + 1 else 0 }] }
 
 /-- `parse_response_header`: correlation id (int32) and, for flexible versions, tagged fields -/
 def parseHeader (flexible : Bool) (frame : Bytes) : Option (Int × Bytes) :=
